@@ -9,6 +9,7 @@
    [anc_steps s fs k x a]: in exactly k steps.  [acyclic_source]: content
    addressing (a predecessor embeds its successor's digest). *)
 From Oras Require Import Base.Prelude Model.FindRoots Proofs.FindRoots.
+From Oras Require Import Model.CopySpec Proofs.CopySpec Proofs.FindRootsCopy.
 Local Open Scope nat_scope.
 
 (* Depth <= 0 (any filter stack, in particular none: find_preds s [] = s_preds s):
@@ -87,7 +88,7 @@ Theorem C03_filter_exact_refuted_prefix :
 Proof. exact find_preds_prefix_refuted. Qed.
 Print Assumptions C03_filter_exact_refuted_prefix.
 
-(* End to end.  [succ] is the link relation, [down succ a x]: x is reachable from a
+(* End to end, general form (any link relation, any "held" predicate).  [succ] is the link relation, [down succ a x]: x is reachable from a
    through links, [held x]: the destination holds x byte-identical after return.
    The copy phase is C01's subject: its closure fact is the hypothesis
    [copy_closure_C01] (each root's graph arrives). *)
@@ -108,7 +109,7 @@ Section ExtendedClosure.
 
   (* unlimited depth: the destination holds the graph of every member of the
      given node's (filtered) upward closure *)
-  Theorem C03_extended_closure :
+  Theorem C03_extended_closure_gen :
     (limit <= 0)%Z ->
     forall a, anc s fs (d_id node) a -> forall x, down succ a x -> held x.
   Proof.
@@ -117,7 +118,7 @@ Section ExtendedClosure.
   Qed.
 
   (* any depth: the given node's own graph is held *)
-  Theorem C03_depth_own_graph :
+  Theorem C03_depth_own_graph_gen :
     forall x, down succ (d_id node) x -> held x.
   Proof.
     exact (depth_own_graph s fs limit node succ pred_is_inverse_link held rank fuel roots
@@ -140,9 +141,53 @@ Section ExtendedClosure.
                        source_acyclic Hl roots_found copy_only_C01).
   Qed.
 End ExtendedClosure.
-Print Assumptions C03_extended_closure.
-Print Assumptions C03_depth_own_graph.
+Print Assumptions C03_extended_closure_gen.
+Print Assumptions C03_depth_own_graph_gen.
 Print Assumptions C03_depth_nothing_outside.
+
+(* End to end with C01's theorem in the place of [copy_closure_C01]: [g] is C01's content
+   universe (Model/CopySpec.v), [reach g] its link reachability (foreign layers cut),
+   [has g final x]: the final destination holds x.  [copy_run_of g final r]: for root r
+   there is an accepted run of C01's copyGraph transition system with c_root = r that
+   returned success from a link-closed destination and whose destination content is part
+   of the final destination.  C01_closure (closure_lemma) supplies each root's graph. *)
+Theorem C03_extended_closure :
+  forall (s : source) (fs : list filter) (limit : Z) (nd : desc) (rank : nat -> nat)
+         (fuel : nat) (roots : list desc) (g : graph) (final : list node),
+    acyclic_source s rank ->
+    (forall x p, In p (s_preds s x) -> In x (succ' g (d_id p))) ->
+    mt_consistent g ->
+    find_roots fuel s fs limit nd = Some roots ->
+    (forall r, In r roots -> copy_run_of g final (d_id r)) ->
+    (limit <= 0)%Z ->
+    forall a, anc s fs (d_id nd) a ->
+    forall x, Proofs.CopySpec.reach g a x -> has g final x = true.
+Proof. exact extended_closure_C01. Qed.
+Print Assumptions C03_extended_closure.
+
+(* any Depth: the given node's own graph is held *)
+Theorem C03_depth_own_graph :
+  forall (s : source) (fs : list filter) (limit : Z) (nd : desc) (rank : nat -> nat)
+         (fuel : nat) (roots : list desc) (g : graph) (final : list node),
+    acyclic_source s rank ->
+    (forall x p, In p (s_preds s x) -> In x (succ' g (d_id p))) ->
+    mt_consistent g ->
+    find_roots fuel s fs limit nd = Some roots ->
+    (forall r, In r roots -> copy_run_of g final (d_id r)) ->
+    forall x, Proofs.CopySpec.reach g (d_id nd) x -> has g final x = true.
+Proof. exact depth_own_graph_C01. Qed.
+Print Assumptions C03_depth_own_graph.
+
+(* satisfiable: C01's example run (g_ex, c_ex, tr_ex) is the copy of the one root above blob 1 *)
+Example C03_ex_C01_bridge :
+  exists final,
+    acyclic_source ex_src_c01 (fun x => x) /\
+    (forall x p, In p (s_preds ex_src_c01 x) -> In x (succ' g_ex (d_id p))) /\
+    mt_consistent g_ex /\
+    find_roots (fuel_for ex_src_c01 4) ex_src_c01 [] 0%Z (mkDesc 1 [] None) = Some [mkDesc 3 [] None] /\
+    (forall r, In r [mkDesc 3 [] None] -> copy_run_of g_ex final (d_id r)) /\
+    present_nodes g_ex final = [0; 1; 2; 3].
+Proof. exact ex_c01_bridge. Qed.
 
 (* ExtendedCopy = Resolve; ExtendedCopyGraph; Tag: on success the destination
    reference (source reference when left blank) names the given node *)
